@@ -63,6 +63,8 @@ func GenC10(verifSeed uint64, run int) *Scenario {
 			for _, rn := range []int{-1, 0, 7} {
 				plan.Cases = append(plan.Cases, Case{Format: f, Sign: "callback", Class: "signer", Signer: &SignerFault{FailCall: i, ReadN: rn}})
 			}
+			// ... and returning some bytes together with the error
+			plan.Cases = append(plan.Cases, Case{Format: f, Sign: "callback", Class: "signer", Signer: &SignerFault{FailCall: i, ReadN: -1, WithBytes: true}})
 		}
 		// key file faults
 		for _, k := range []string{"remove", "truncate", "garbage", "empty", "dir"} {
